@@ -457,3 +457,19 @@ def g_nt_stage(fmt, q, count, delta_bits, wlo=1 << 63, whi=(1 << 64) - 1):
         sols = solutions_in_range(a, m, target - width, target + width, wlo, whi, count)
         res.extend(sols)
     return sorted(set(res))[:2 * count]
+
+
+def g_dec(rng, fmts=('f64', 'f32'), extra=0):
+    """every one-digit significand at every decimal exponent of the range (and a little beyond):
+    d x 10^k - the shortest renderings of the 'round' floats, the top and bottom decades, the exact
+    exponent limits of each algorithm (deterministic, ~12k cases), plus `extra` random 2-4 digit ones"""
+    out = []
+    for fmt in fmts:
+        lo, hi = (-345, 311) if fmt == 'f64' else (-66, 41)
+        for k in range(lo, hi + 1):
+            for d in range(1, 10):
+                out.append(PF(fmt, str(d), '', k, 'G-DEC'))
+        for _ in range(extra):
+            k = rng.range(lo, hi)
+            out.append(PF(fmt, str(rng.range(10, 9999)), '', k, 'G-DEC/multi'))
+    return out
